@@ -149,9 +149,10 @@ package ps
 //@   ensures  [refines] val(result) == lagSpec(old(vals(evaluationPoints)), evaluatedAt, len(evaluationPoints))
 //@   loop 0: invariant [elems]    forall m int :: 0 <= m && m < len(prodElements) ==> prodElements[m] != nil
 //@   loop 0: invariant [nonempty] forall k int :: 0 <= k && k <= rangeindex && evaluationPoints[k] != evaluatedAt ==> len(prodElements) > 0
-//@   loop 0: invariant [factors]  prodAll(vals(prodElements), len(prodElements)) == lagSpec(old(vals(evaluationPoints)), evaluatedAt, rangeindex+1)
+//@   loop 0: invariant [factors]  rangeindex < len(evaluationPoints) && prodAll(vals(prodElements), len(prodElements)) == lagSpec(old(vals(evaluationPoints)), evaluatedAt, rangeindex+1)
 //@   loop 1: invariant [prod]     prod != nil && 1 <= i
 //@   loop 1: invariant [partial-product] i <= len(prodElements) && val(prod) == prodAll(vals(prodElements), i)
+//@   loop 1: invariant [factors-kept]    prodAll(vals(prodElements), len(prodElements)) == lagSpec(old(vals(evaluationPoints)), evaluatedAt, len(evaluationPoints))
 //@
 // recF(s, a, n, k) = sum over j < k of lagSpec(a, a[j], n) * s[a[j]-1]   (shares are indexed by evaluation point)
 //@ spec func recF(s seq[F], a seq[int], n int, k int) F = ite(k <= 0, fint(0), fadd(recF(s, a, n, k-1), fmul(s[a[k-1]-1], lagSpec(a, a[k-1], n))))
